@@ -237,6 +237,12 @@ const_chunks!(CS_UNIT_E, (), mk_unit, val_unit, U16, 1, 67, 1);
 const_chunks!(CS_TUP_A, (u8, u16), mk_tup, val_tup, U3, 2, 11, 2);
 const_chunks!(CS_TUP_B, (u8, u16), mk_tup, val_tup, U8, 0, 16, 1);
 const_chunks!(CS_TUP_E, (u8, u16), mk_tup, val_tup, U16, 1, 67, 1);
+// the slice is the WHOLE allocation (nothing before, nothing after) and leaves a remainder: pointer arithmetic that
+// steps outside the slice on its way to the remainder is an error for the const evaluator only
+const_chunks!(CS_U8_G, u8, mk_u8, val_u8, U3, 0, 8, 0);
+const_chunks!(CS_U32_G, u32, mk_u32, val_u32, U3, 0, 8, 0);
+const_chunks!(CS_U32_H, u32, mk_u32, val_u32, U8, 0, 5, 0);
+const_chunks!(CS_TUP_G, (u8, u16), mk_tup, val_tup, U7, 0, 16, 0);
 // mutable form
 const_chunks_mut!(CM_U8_A, u8, mk_u8, val_u8, U3, 3, 2, 11, 2);
 const_chunks_mut!(CM_U8_B, u8, mk_u8, val_u8, U2, 2, 0, 9, 1);
@@ -245,6 +251,8 @@ const_chunks_mut!(CM_U32_A, u32, mk_u32, val_u32, U3, 3, 2, 11, 2);
 const_chunks_mut!(CM_UNIT_A, (), mk_unit, val_unit, U3, 3, 2, 11, 2);
 const_chunks_mut!(CM_TUP_A, (u8, u16), mk_tup, val_tup, U3, 3, 2, 11, 2);
 const_chunks_mut!(CM_TUP_C, (u8, u16), mk_tup, val_tup, U8, 8, 1, 35, 1);
+const_chunks_mut!(CM_U32_G, u32, mk_u32, val_u32, U3, 3, 0, 8, 0);
+const_chunks_mut!(CM_U8_G, u8, mk_u8, val_u8, U8, 8, 0, 5, 0);
 // native arrays <-> GenericArray: (N, a, C, G)
 const_native!(CN_U8_A, u8, mk_u8, val_u8, U3, 3, 1, 3, 1);
 const_native!(CN_U32_A, u32, mk_u32, val_u32, U8, 8, 0, 2, 1);
@@ -310,6 +318,10 @@ fn const_cases() -> Vec<(Vec<i128>, Vec<i128>)> {
     cc!(CS_TUP_A, 10, 3, 3, 2, 11, 2);
     cc!(CS_TUP_B, 10, 3, 8, 0, 16, 1);
     cc!(CS_TUP_E, 10, 3, 16, 1, 67, 1);
+    cc!(CS_U8_G, 10, 0, 3, 0, 8, 0);
+    cc!(CS_U32_G, 10, 1, 3, 0, 8, 0);
+    cc!(CS_U32_H, 10, 1, 8, 0, 5, 0);
+    cc!(CS_TUP_G, 10, 3, 7, 0, 16, 0);
     cc!(CM_U8_A, 11, 0, 3, 2, 11, 2);
     cc!(CM_U8_B, 11, 0, 2, 0, 9, 1);
     cc!(CM_U8_C, 11, 0, 8, 1, 35, 1);
@@ -317,6 +329,8 @@ fn const_cases() -> Vec<(Vec<i128>, Vec<i128>)> {
     cc!(CM_UNIT_A, 11, 2, 3, 2, 11, 2);
     cc!(CM_TUP_A, 11, 3, 3, 2, 11, 2);
     cc!(CM_TUP_C, 11, 3, 8, 1, 35, 1);
+    cc!(CM_U32_G, 11, 1, 3, 0, 8, 0);
+    cc!(CM_U8_G, 11, 0, 8, 0, 5, 0);
     cc!(CN_U8_A, 16, 0, 3, 1, 3, 1);
     cc!(CN_U32_A, 16, 1, 8, 0, 2, 1);
     cc!(CN_TUP_A, 16, 3, 7, 2, 2, 0);
